@@ -13,7 +13,7 @@
        dask.compute barriers the code has.
    numba's threading layer, the GIL and Dask's scheduler are NOT modelled: an execution
    is any interleaving of the atomic steps below.  No proofs in this file. *)
-From Coq Require Import List Bool Arith String.
+From Coq Require Import ZArith List Bool Arith String.
 From SP Require Import Model.FS.
 Import ListNotations.
 
@@ -126,29 +126,33 @@ Section Cache.
   (*   def sindex(self):                      def numba_rtree(self):
          if self._sindex is None:   (check)     if self._numba_rtree is None:   (check)
              self.build_sindex()                    self._numba_rtree = f(x)     (write)
-         return self._sindex        (final)     return self._numba_rtree        (final)
+         return self._sindex        (read)      return self._numba_rtree        (read)
        def build_sindex(self):
-         if self._sindex is None:   (check)
-             self._sindex = f(x)    (write)
-     A thread is at: [Check k] k more `is None` tests before it builds (k = 1 for sindex
-     entered at the top: its own test was passed, build_sindex tests again; k = 0: it
-     builds next); [Write]; [Final] the returning read; [Done v] returned v. *)
+         if self._sindex is None:   (check)   def partition_bounds(self):
+             self._sindex = f(x)    (write)      if self._partition_bounds is None:        (check)
+                                                     self._partition_bounds = f(x)         (write)
+                                                     self._partition_bounds.index.name = .. (read)
+                                                 return self._partition_bounds             (read)
+     A thread is at: [Check k mw] k more `is None` tests before it builds (k = 1 for sindex
+     entered at the top: build_sindex tests again; k = 0: it builds next), mw = number of
+     reads of the cell between its own write and the returning read; [Write mw];
+     [Read m] m more reads before the returning read; [Done v] returned v. *)
   Inductive pc :=
-  | Check (k : nat)
-  | Write
-  | Final
+  | Check (k mw : nat)
+  | Write (mw : nat)
+  | Read (m : nat)
   | Done (v : option V).
 
   (* one atomic step of a thread against the shared cell *)
   Definition tstep (cell : option V) (p : pc) : option V * pc :=
     match p with
-    | Check k =>
+    | Check k mw =>
         match cell with
-        | Some _ => (cell, Final)
-        | None => (cell, match k with O => Write | S k' => Check k' end)
+        | Some _ => (cell, Read 0)
+        | None => (cell, match k with O => Write mw | S k' => Check k' mw end)
         end
-    | Write => (Some fx, Final)
-    | Final => (cell, Done cell)
+    | Write mw => (Some fx, Read mw)
+    | Read m => match m with O => (cell, Done cell) | S m' => (cell, Read m') end
     | Done v => (cell, Done v)
     end.
 
@@ -172,18 +176,37 @@ Section Cache.
 
   Definition srun (sched : list nat) (s : sys) : sys := fold_left sstep sched s.
 
-  (* the access entered at the top: sindex = Check 1, numba_rtree / partition_bounds /
-     partition_sindex / the dict-based ones = Check 0 *)
-  Definition start (checks : list nat) : sys := (None, map Check checks).
+  (* what the scheduled thread does to the cell: 0 = reads it, 1 = writes it, 2 = nothing
+     (it has returned / there is no such thread) *)
+  Definition step_kind (s : sys) (i : nat) : nat :=
+    match nth_error (snd s) i with
+    | Some (Write _) => 1
+    | Some (Done _) => 2
+    | Some _ => 0
+    | None => 2
+    end.
+
+  Fixpoint srun_kinds (sched : list nat) (s : sys) : list nat :=
+    match sched with
+    | [] => []
+    | i :: t => step_kind s i :: srun_kinds t (sstep s i)
+    end.
+
+  (* the access entered at the top, per thread (k, mw): sindex = (1, 0); numba_rtree,
+     partition_sindex and the dict-based caches = (0, 0); partition_bounds = (0, 1) *)
+  Definition start (cfgs : list (nat * nat)) : sys :=
+    (None, map (fun c => Check (fst c) (snd c)) cfgs).
 End Cache.
 
 Arguments Check {V}.
 Arguments Write {V}.
-Arguments Final {V}.
+Arguments Read {V}.
 Arguments Done {V}.
 Arguments tstep {V}.
 Arguments sstep {V}.
 Arguments srun {V}.
+Arguments srun_kinds {V}.
+Arguments step_kind {V}.
 Arguments start {V}.
 Arguments set_nth {V}.
 
@@ -323,3 +346,76 @@ Definition initial (L : layout) (k : nat) : fstore :=
 
 (* a finite view for the examples / correspondence: the values at the given locations *)
 Definition view (s : fstore) (ls : list loc) : list val := map s ls.
+
+(* ------------------------------------------------------------------ *)
+(* entry points of the correspondence run                               *)
+(* ------------------------------------------------------------------ *)
+
+(* (a) what was observed of one kernel call: per iteration (in execution order) its number
+   and the stores it performed as (cell, value); the result array when the loop started *)
+Definition obs_iteration := (nat * list (nat * Z))%type.
+
+Fixpoint nodupb (l : list nat) : bool :=
+  match l with
+  | [] => true
+  | x :: t => negb (existsb (Nat.eqb x) t) && nodupb t
+  end.
+
+(* every store of iteration i hit cell i *)
+Definition own_cells (its : list obs_iteration) : bool :=
+  forallb (fun it => forallb (fun w => Nat.eqb (fst w) (fst it)) (snd it)) its.
+
+Definition to_iteration (it : obs_iteration) : nat * list Z := (fst it, map snd (snd it)).
+
+(* (footprint property holds, result of the loop in the observed order, result with the
+   iterations in the opposite order) *)
+Definition prange_check (c : list obs_iteration * list Z) : bool * list Z * list Z :=
+  let '(its, r0) := c in
+  (own_cells its && nodupb (map fst its),
+   run_iterations (map to_iteration its) r0,
+   run_iterations (rev (map to_iteration its)) r0).
+
+(* (b) a recorded schedule of the cache machine: the values returned and the final cell,
+   with the value f x represented by 1 *)
+Definition pc_code (p : pc Z) : option (option Z) :=
+  match p with Done v => Some v | _ => None end.
+
+(* (final cell, what each thread returned, the kind of access of every step) *)
+Definition cache_check (c : list (nat * nat) * list nat)
+  : option Z * list (option (option Z)) * list nat :=
+  let '(cfgs, sched) := c in
+  let s := srun 1%Z sched (start cfgs) in
+  (fst s, map pc_code (snd s), srun_kinds 1%Z sched (start cfgs)).
+
+(* (c) a recorded trace of filesystem operations *)
+Inductive fsop :=
+| FWrite (p : path) (rows : list (nat * nat))
+| FRm (p : path)
+| FRead (N : nat) (files : list path)
+| FWriteFrom (N : nat) (p : path).
+
+Definition denote (o : fsop) : op loc val :=
+  match o with
+  | FWrite p rows => fs_write p rows
+  | FRm p => fs_rmtree p
+  | FRead N files => fs_read_files N files
+  | FWriteFrom N p => fs_write_from N p
+  end.
+
+(* None: no such path; Some None: a directory; Some (Some rows): a file with these cells *)
+Definition val_code (v : val) : option (option (list (nat * nat))) :=
+  match v with
+  | VNone => None
+  | VDir => Some None
+  | VFile r => Some (Some r)
+  | VRows r => Some (Some r)
+  end.
+
+(* (tree after replaying the recorded trace, tree after the sequential execution of the
+   modelled tasks), both seen at the given paths *)
+Definition trace_check (c : layout * list (list nat) * nat * list fsop * list path)
+  : list (option (option (list (nat * nat)))) * list (option (option (list (nat * nat)))) :=
+  let '(L, asg, k, tr, ps) := c in
+  let locs := map LPath ps in
+  (map val_code (view (run (map denote tr) (initial L k)) locs),
+   map val_code (view (run (List.concat (phase1 L asg) ++ List.concat (phase2 L asg k)) (initial L k)) locs)).
